@@ -58,4 +58,11 @@ CLAIMED.update({
   "technique": "symbolic execution with callee contracts and loop summaries; QF nonlinear integer/real arithmetic with auxiliary lemmas; Sigma extensionality; z3 (parallel)",
  },
 })
+CLAIMED.update({
+ "C16": {
+  "text": "binImgs: for bin factors n in {1,2,3,4,5}, proved for ALL image sizes and stack depths (2-d and 3-d paths): out[..., r, c] is the sum of the n x n block (hence flux preserved). zoom and zoom_rbs (square input, orders 1,3,5, float64 / complex128 / complex64, tuple and scalar size): out[a,b] is the interpolating spline of that order through the (real / imaginary) samples evaluated at linspace(0, n-1, new)[a], [b]; with the node contract of the spline: same size returns the input and a new grid containing the old nodes passes through the samples; complex = real + i*imag. azimuthal_average (all even sizes, loop summary): every ring is non-empty (witness pixel), a constant image gives the constant, every value lies between the image bounds. Encircled energy, other bin factors and polynomial exactness: bounded native stand-ins (labelled bounded).",
+  "note": BASE + "RectBivariateSpline(s=0) is an uninterpreted interpolation operator with its node-interpolation contract (polynomial exactness is a property of that operator, assumed); circle() used through its C14 contract; bin factor is concrete per obligation (bounded in n, unbounded in image size).",
+  "technique": "symbolic execution (unrolled for concrete bin factor, loop summary for azimuthal rings) with callee contracts; Sigma rules (linearity, convexity, witness); z3",
+ },
+})
 NOT_APPLICABLE = {}
